@@ -161,3 +161,102 @@ def op_load_evolution(req, trace):
         trace.emit({'t': 'tb', 'tb': traceback.format_exc()})
     trace.emit({'t': 'probe', 'name': 'loaded', 'p': out})
     _exit_event(trace, status, exc)
+
+
+@register('graph_sample')
+def op_graph_sample(req, trace):
+    """C09(a): seeded random digraphs given to DependencyGraph in a seeded
+    random insertion order; checks permutation / edge order / cycles."""
+    import random
+    configure(req)
+    from django_evolution.utils.graph import DependencyGraph
+    args = req['args']
+    rng = random.Random(args['gseed'])
+    viols = []
+    stats = {'graphs': 0, 'cyclic': 0, 'acyclic': 0, 'removed': 0,
+             'self_loop': 0}
+    for gi in range(args.get('count', 200)):
+        n = rng.randint(1, args.get('max_nodes', 7))
+        nodes = ['n%d' % i for i in range(n)]
+        edges = set()
+        p = rng.choice([0.1, 0.2, 0.35, 0.5])
+        for a in nodes:
+            for b in nodes:
+                if a != b and rng.random() < p / 2:
+                    edges.add((a, b))      # a depends on b
+        mode = rng.choice(['dag', 'dag', 'any', 'self'])
+        if mode == 'dag':
+            # keep only edges from later to earlier in a random total order
+            order = nodes[:]
+            rng.shuffle(order)
+            pos = {k: i for i, k in enumerate(order)}
+            edges = {(a, b) for (a, b) in edges if pos[a] > pos[b]}
+        elif mode == 'self' and nodes:
+            x = rng.choice(nodes)
+            edges.add((x, x))
+            stats['self_loop'] += 1
+        removed = set()
+        if rng.random() < 0.25 and nodes:
+            removed = set(rng.sample(nodes, rng.randint(1, max(1, n // 3))))
+            stats['removed'] += 1
+        eff = {(a, b) for (a, b) in edges
+               if a not in removed and b not in removed}
+        # cyclic?
+        adj = {}
+        for a, b in eff:
+            adj.setdefault(a, set()).add(b)
+        color = {}
+
+        def cyc(u):
+            color[u] = 1
+            for v in adj.get(u, ()):
+                if color.get(v) == 1 or (color.get(v) is None and cyc(v)):
+                    return True
+            color[u] = 2
+            return False
+        cyclic = any(color.get(u) is None and cyc(u) for u in nodes)
+        stats['cyclic' if cyclic else 'acyclic'] += 1
+        stats['graphs'] += 1
+        ins = nodes[:]
+        rng.shuffle(ins)
+        elist = sorted(edges)
+        rng.shuffle(elist)
+        g = DependencyGraph()
+        # interleave node and dependency insertion
+        pending_edges = list(elist)
+        for k in ins:
+            g.add_node(k)
+            while pending_edges and rng.random() < 0.5:
+                a, b = pending_edges.pop()
+                g.add_dependency(a, b)
+        for a, b in pending_edges:
+            g.add_dependency(a, b)
+        if removed:
+            g.remove_dependencies(removed)
+        desc = {'nodes': ins, 'edges': [list(e) for e in sorted(eff)],
+                'removed': sorted(removed)}
+        try:
+            g.finalize()
+            got = [nd.key for nd in g.get_ordered()]
+        except Exception as e:
+            if not cyclic:
+                viols.append({'rule': 'C09.acyclic_raised', 'detail': dict(
+                    desc, exc='%s: %s' % (type(e).__name__, e))})
+            continue
+        if cyclic:
+            viols.append({'rule': 'C09.cycle_silent', 'detail': dict(
+                desc, got=got)})
+            continue
+        if sorted(got) != sorted(nodes):
+            viols.append({'rule': 'C09.not_permutation', 'detail': dict(
+                desc, got=got)})
+            continue
+        pos = {k: i for i, k in enumerate(got)}
+        for a, b in sorted(eff):
+            if pos[b] > pos[a]:
+                viols.append({'rule': 'C09.edge_violated', 'detail': dict(
+                    desc, got=got, edge=[a, b])})
+                break
+    trace.emit({'t': 'probe', 'name': 'graph', 'p': {'violations': viols[:20],
+                                                      'stats': stats}})
+    _exit_event(trace, 'ok')
